@@ -182,6 +182,67 @@ int handle_str_bos_overflow(const char *restrict msg, char *restrict dest,
     return RCNEGATE(err);
 }
 
+/* characters that may stand between '%' and the conversion character:
+   flags, field width, precision, positional '$', scanf '*' and 'm',
+   length modifiers */
+#define SAFEC_FMT_SKIP(c)                                                      \
+    ((c) == '-' || (c) == '+' || (c) == ' ' || (c) == '#' || (c) == '0' ||     \
+     (c) == '\'' || (c) == 'I' || ((c) >= '1' && (c) <= '9') || (c) == '*' ||   \
+     (c) == '.' || (c) == '$' || (c) == 'h' || (c) == 'l' || (c) == 'L' ||      \
+     (c) == 'q' || (c) == 'j' || (c) == 'z' || (c) == 't' || (c) == 'm')
+
+int safec_fmt_has_n(const char *restrict fmt) {
+    const char *p = fmt;
+    while (*p) {
+        if (*p != '%') {
+            p++;
+            continue;
+        }
+        p++;
+        if (*p == '%') { /* escaped percent */
+            p++;
+            continue;
+        }
+        while (*p && SAFEC_FMT_SKIP(*p)) {
+            p++;
+        }
+        if (*p == 'n') {
+            return 1;
+        }
+        if (*p) {
+            p++;
+        }
+    }
+    return 0;
+}
+
+#ifndef SAFECLIB_DISABLE_WCHAR
+int safec_wfmt_has_n(const wchar_t *restrict fmt) {
+    const wchar_t *p = fmt;
+    while (*p) {
+        if (*p != L'%') {
+            p++;
+            continue;
+        }
+        p++;
+        if (*p == L'%') { /* escaped percent */
+            p++;
+            continue;
+        }
+        while (*p && SAFEC_FMT_SKIP(*p)) {
+            p++;
+        }
+        if (*p == L'n') {
+            return 1;
+        }
+        if (*p) {
+            p++;
+        }
+    }
+    return 0;
+}
+#endif
+
 #ifndef SAFECLIB_DISABLE_CONSTRAINT_HANDLER
 
 void handle_str_bos_chk_warn(const char *restrict func, char *restrict dest,
